@@ -4,8 +4,31 @@ use std::panic::{catch_unwind, AssertUnwindSafe};
 
 /// Run `f` for every non-comment input line; print exactly one output line per case,
 /// flushed, so that a killed child leaves the culprit as the first unanswered line.
+/// Seconds since the current case started (0 = idle); read by the watchdog thread.
+static CASE_STARTED_MS: std::sync::atomic::AtomicU64 = std::sync::atomic::AtomicU64::new(0);
+
+fn now_ms() -> u64 {
+    std::time::SystemTime::now().duration_since(std::time::UNIX_EPOCH).map(|d| d.as_millis() as u64).unwrap_or(1)
+}
+
+/// A case that does not answer within VHARNESS_CASE_TIMEOUT seconds (default 30) ends the process with status
+/// 124: the driver then reports the first unanswered case as the culprit (a hang is a violation for the
+/// totality properties and a broken run for the others) instead of waiting for the whole shard's time limit.
+fn start_watchdog() {
+    let limit_ms: u64 = std::env::var("VHARNESS_CASE_TIMEOUT").ok().and_then(|v| v.parse::<u64>().ok()).unwrap_or(30) * 1000;
+    std::thread::spawn(move || loop {
+        std::thread::sleep(std::time::Duration::from_millis(200));
+        let t0 = CASE_STARTED_MS.load(std::sync::atomic::Ordering::Relaxed);
+        if t0 != 0 && now_ms().saturating_sub(t0) > limit_ms {
+            eprintln!("watchdog: a case exceeded {} ms", limit_ms);
+            std::process::exit(124);
+        }
+    });
+}
+
 pub fn for_each_case<F: FnMut(&str) -> String>(mut f: F) {
     std::panic::set_hook(Box::new(|_| {}));
+    start_watchdog();
     let stdin = std::io::stdin();
     let stdout = std::io::stdout();
     for line in stdin.lock().lines() {
@@ -13,7 +36,9 @@ pub fn for_each_case<F: FnMut(&str) -> String>(mut f: F) {
         if line.is_empty() || line.starts_with('#') {
             continue;
         }
+        CASE_STARTED_MS.store(now_ms(), std::sync::atomic::Ordering::Relaxed);
         let r = catch_unwind(AssertUnwindSafe(|| f(&line)));
+        CASE_STARTED_MS.store(0, std::sync::atomic::Ordering::Relaxed);
         let out = match r {
             Ok(s) => s,
             Err(e) => {
